@@ -197,3 +197,60 @@ func verifHarness_C08_stickyPrior() {
 	g.vAssertValid(plan)
 	vReach()
 }
+
+// sticky with every pattern of prior claims over three partitions by three members: each
+// partition is claimed by any subset of the members (conflicts included), each member's user
+// data carries generation 1 or 2 (so conflicting claims have equal or different generations),
+// every subscription matrix (claims of topics a member no longer subscribes to included).
+func verifHarness_C08_stickyConflicts() {
+	g := &vGroup{members: map[string]ConsumerGroupMemberMetadata{}, topics: map[string][]int32{"a": {0, 1}, "b": {0}},
+		tnames: []string{"a", "b"}, ids: []string{"m0", "m1", "m2"}}
+	subsClass := ""
+	for _, id := range g.ids {
+		var subs []string
+		for _, t := range g.tnames {
+			if vChoose("subscribes", 2) == 1 {
+				subs = append(subs, t)
+				subsClass += t
+			}
+		}
+		subsClass += "/"
+		g.members[id] = ConsumerGroupMemberMetadata{Topics: subs}
+	}
+	for _, t := range g.tnames {
+		if len(g.subscribers(t)) == 0 {
+			delete(g.topics, t)
+		}
+	}
+	parts := []topicPartitionAssignment{{"a", 0}, {"a", 1}, {"b", 0}}
+	claims := map[string]map[string][]int32{"m0": {}, "m1": {}, "m2": {}}
+	claimClass := ""
+	for _, tp := range parts {
+		who := vChoose("claimedBy", 8) // bit i: member i claims it
+		claimClass += vItoa(int64(who))
+		for i, id := range g.ids {
+			if who&(1<<uint(i)) != 0 {
+				claims[id][tp.Topic] = append(claims[id][tp.Topic], tp.Partition)
+			}
+		}
+	}
+	genClass := ""
+	for _, id := range g.ids {
+		if len(claims[id]) == 0 {
+			genClass += "-"
+			continue
+		}
+		gen := int32(1 + vChoose("generation", 2))
+		genClass += vItoa(int64(gen))
+		ud, err := encode(&StickyAssignorUserDataV1{Topics: claims[id], Generation: gen}, nil)
+		vAssume(err == nil)
+		m := g.members[id]
+		m.UserData = ud
+		g.members[id] = m
+	}
+	vClass(vSprintf("subs=%s,claims=%s,gens=%s", subsClass, claimClass, genClass))
+	plan, err := (&stickyBalanceStrategy{}).Plan(g.members, g.topics)
+	vAssert(err == nil, "no-error")
+	g.vAssertValid(plan)
+	vReach()
+}
